@@ -6,3 +6,4 @@ import MtailVerif.Props.C14
 #print axioms MtailVerif.C14.refused_iff_kind_conflict
 #print axioms MtailVerif.C14.moved_declaration_duplicates
 #print axioms MtailVerif.C14.partial_registration_counterexample
+#print axioms MtailVerif.C14.loader_skeletons
